@@ -543,6 +543,27 @@ class BlockNet(Engine):
         if a['clock'] == 'default':
             if self.clock.reads == reads0:
                 ctx.check(False, 'C16.time', 'CheckBlock without cur_time did not read the clock at check time', **det)
+        # the header on its own, through the header entry point, with both settings of the work flag
+        for hp in (do_pow, False):
+            hw = BR.check_pow(RW.dsha(RW.enc_header(spec)), spec['bits'], t['pow_limit']) if hp else None
+            if not hw and spec['time'] > now + 7200:
+                hw = 'time-too-new'
+            try:
+                C.CheckBlockHeader(block.get_header() if nth % 2 else conv.header_from_spec(spec), fCheckPoW=hp, cur_time=now)
+                hg, hexc = None, None
+            except C.ValidationError as e:
+                hg, hexc = 'reject', e
+            except Exception as e:
+                hg, hexc = 'crash', e
+            if hg == 'crash':
+                ctx.check(False, 'C16.errfamily', 'CheckBlockHeader raised %s outside the validation-error family' % type(hexc).__name__, exc=type(hexc).__name__, entry='header', **det)
+            elif hw is None:
+                ctx.check(hg is None, 'C16.time' if any(x.startswith('time-') for x in rules) else 'C16.accept-valid',
+                          'header passing the work and time rules rejected by CheckBlockHeader(fCheckPoW=%r): %s' % (hp, hexc), entry='header', pow=hp, **det)
+            else:
+                ctx.check(hg == 'reject', 'C16.time' if hw == 'time-too-new' else 'C16.block.' + hw,
+                          'header violating %s accepted by CheckBlockHeader(fCheckPoW=%r)' % (hw, hp), entry='header', pow=hp, **det)
+        ctx.probe('header-entry-point')
         ctx.log(self.q.now, validator, 'check', [a['rule'], nth], 'accept' if got is None else 'reject:' + type(exc).__name__)
         if nth == 1:
             self.ctx.nontrivial = True
@@ -701,6 +722,17 @@ class BlockNet(Engine):
             ctx.check(got is None, 'C16.tx.valid', 'rule-conforming transaction (%s) rejected by CheckTransaction: %s' % (rule, exc), **det)
         else:
             ctx.check(got == 'reject', 'C16.tx.' + want, 'transaction violating %s accepted by CheckTransaction' % want, **det)
+        # the money-range predicate itself, under the chain this party has selected (and, named explicitly,
+        # under the chain another party lives on)
+        mm = RC.TABLE[chain]['max_money']
+        vals = [o['value'] for o in tx['vout']][:4] + [0, -1, mm, mm + 1, mm - 1, r[0] % (2 * mm + 2) - 1]
+        for v in vals:
+            try:
+                g = C.MoneyRange(v)
+            except Exception as e:
+                g = 'raised %s' % type(e).__name__
+            ctx.check(g is (0 <= v <= mm) or g == (0 <= v <= mm) and isinstance(g, bool), 'C16.tx.money-range', 'MoneyRange(%d) under %s returned %r' % (v, chain, g), chain=chain, entry='MoneyRange')
+        ctx.probe('money-range-predicate')
         ctx.log(self.q.now, p, 'checktx', rule, 'accept' if got is None else 'reject')
 
     # ------------------------------------------------------------------
